@@ -8,7 +8,7 @@ Import ListNotations.
 Open Scope Z_scope.
 
 Record case := {
-  k_fmt : format;  k_crlf : bool;
+  k_fmt : format;  k_crlf : bool;  k_final : bool;   (* line end; does the file end with one *)
   k_header : list (list Z);                  (* leading header / comment lines, without line end *)
   k_recs : list (list (list Z));             (* records as lists of field texts *)
   k_comments : list (list (list Z));         (* interior comment lines before record i; last entry: after the last record *)
@@ -45,7 +45,7 @@ Definition col_same (m o : colres) : bool :=
   end.
 
 Definition file_ok (c : case) : bool :=
-  zlist_eqb (spec_file (k_fmt c) (k_width c) (k_crlf c) (k_header c) (k_recs c) (k_comments c)) (k_file c).
+  zlist_eqb (spec_file (k_fmt c) (k_width c) (k_crlf c) (k_final c) (k_header c) (k_recs c) (k_comments c)) (k_file c).
 
 Definition spec_ok (c : case) : bool :=
   file_ok c &&
